@@ -61,6 +61,22 @@ THEMES = {
         "with the DSL vs parsed from its own serialize_json output vs re-imported from its own serialize_python "
         "output; validating A then B vs B then A. Break the property for ONE side of such a pair only. Your change "
         "must also sit in a function that none of the earlier changes touched (their locations are listed below)."),
+    10: ("Make it look like a change a maintainer would plausibly merge. All inputs must be LEGAL (schemas valid under "
+         "JSON Schema Draft 6, DSL calls with documented arguments and sensible usage). This time aim at DEGENERATE BUT "
+         "LEGAL spellings that real documents contain and hand-written tests skip: empty containers as keyword values "
+         "(`required: []`, `properties: {}`, `patternProperties: {}`, `dependencies: {}`, `definitions: {}`, a "
+         "one-value `enum`, a one-member `anyOf`/`oneOf`/`allOf`); the boolean schemas `true` / `false` in every "
+         "position where a schema may stand (`items`, `additionalItems`, a value under `properties` / "
+         "`patternProperties` / `dependencies` / `definitions`, `not`, `contains`, `propertyNames`, a member of a "
+         "composition, the whole document); keywords given with the value they have anyway (`additionalProperties: "
+         "true`, `minItems: 0`, `uniqueItems: false`, `required=False` on a Property); numeric keywords written as "
+         "integral floats (`minLength: 2.0`, `maxItems: 3.0`) or as very large integers; keywords that are "
+         "irrelevant for the declared type (`minLength` next to `type: integer`, `items` next to `type: object`, "
+         "`properties` next to `type: array`) or for the value at hand; a `title` / `description` / `default` that is "
+         "an empty string, `null`, `false`, `0` or an empty container; the same keyword reached through two levels of "
+         "nesting of the same kind (array of arrays, object in `additionalProperties` of an object, `not` of `not`). "
+         "Break the property for ONE such spelling only, leaving the ordinary spelling intact. Your change must "
+         "also sit in a function that none of the earlier changes touched (their locations are listed below)."),
 }
 
 
